@@ -18,7 +18,7 @@ ASSUMPTIONS = ["the per-commit claims assume the database file predates the log'
                "WAL checksums are not read by the tool; the independent reader (harness/gen/walreader.py) verifies them"]
 
 KINDS = ["plain", "spill", "overflow_inplace", "ddl", "checkpoint_restart", "passive_checkpoint", "grow_shrink",
-         "header_pragmas", "rootmove", "fresh_wal", "plain"]
+         "header_pragmas", "rootmove", "fresh_wal", "freelist_drain", "wide_schema", "restart_after_rollback"]
 
 
 def sqlite_view(db_path, wal_path, tables, sc, tag):
@@ -114,6 +114,8 @@ def run(ctx, n_quick=27, n_thorough=400):
             cfg = F.random_cfg(r, page_sizes=[512, 1024, 4096] if i % 5 else [8192, 65536, 2048], small=True)
             cfg["auto_vacuum"] = [0, 1, 2][i % 3]
             kind = KINDS[i % len(KINDS)]
+            if kind == "wide_schema":
+                cfg["page_size"] = 512      # schema b-tree with an interior root and several leaves
             if kind == "fresh_wal":
                 cfg["encoding"] = ["UTF-16be", "UTF-16le", "UTF-8"][(i // len(KINDS)) % 3]
             try:
